@@ -73,6 +73,13 @@ func (db *DB) openMemTables(opt Options) error {
 			flags = os.O_RDONLY
 		}
 		mt, err := db.openMemTable(fid, flags)
+		if err == z.NewFile {
+			// A zero-length WAL is what a crash leaves behind between creating the file and
+			// sizing it, or between truncating and unlinking it. It holds no entries (it was
+			// just bootstrapped like a new file), so drop it instead of failing Open.
+			mt.DecrRef()
+			continue
+		}
 		if err != nil {
 			return y.Wrapf(err, "while opening fid: %d", fid)
 		}
